@@ -52,14 +52,17 @@ func GenerateWithdrawalHash(bridgeId uint64, l2Sequence uint64, sender string, r
 }
 
 func GenerateNodeHash(a, b []byte) [32]byte {
-	var data [32]byte
+	// build the preimage in its own buffer: appending to a or b would write into the
+	// caller's backing array when that slice has spare capacity (e.g. proofs that are
+	// sub-slices of one buffer), corrupting the next proof and the computed root
+	seed := make([]byte, 0, len(a)+len(b))
 	switch bytes.Compare(a, b) {
 	case 0, 1: // equal or greater
-		data = sha3.Sum256(append(b, a...))
+		seed = append(append(seed, b...), a...)
 	case -1: // less
-		data = sha3.Sum256(append(a, b...))
+		seed = append(append(seed, a...), b...)
 	}
-	return data
+	return sha3.Sum256(seed)
 }
 
 func GenerateRootHashFromProofs(data [32]byte, proofs [][]byte) [32]byte {
